@@ -32,6 +32,8 @@ fn contexts() -> Vec<(&'static str, Vec<&'static str>)> {
         ("two INPUTs on one line", vec!["10 {I}: PRINT \"m\": {I}"]),
         ("last statement of the program", vec!["10 PRINT \"z\"", "20 {I}"]),
         ("after READ with DATA pending", vec!["10 READ Q: {I}: READ R: PRINT Q;R", "20 DATA 4,5"]),
+        ("under THEN whose condition has a side effect", vec!["10 IF RND(1) >= 0 THEN {I}", "20 PRINT \"n\""]),
+        ("under ELSE whose condition has a side effect", vec!["10 IF RND(1) < 0 THEN PRINT 1 ELSE {I}"]),
     ]
 }
 
@@ -61,6 +63,8 @@ fn replies() -> Vec<Reply> {
         Reply { text: ",", num: None, string: Some("\"\""), extra: None },
         Reply { text: "\"", num: None, string: Some("\"\""), extra: None },
         Reply { text: " w z ", num: None, string: Some("\"w z\""), extra: Some(false) },
+        Reply { text: "\"q:r\"", num: None, string: Some("\"q:r\""), extra: Some(false) },
+        Reply { text: " \"a,b\" ", num: None, string: Some("\"a,b\""), extra: Some(false) },
     ]
 }
 
